@@ -17,10 +17,23 @@
 // Nodes are numbered in a topological order (every dependency has a smaller id).  Every update of a
 // concurrent history writes a value that no other update of that history writes and that is no
 // default value, so a state is recognisable from what a read returns.  Owner: C13.
+//
+// FILE family (c13FileHistory): 1..2 `*parameter.File` parameters, each feeding the repo's real binary
+// producer basics.NewBinaryNode (node `B 0 1 p 0`: the artifact IS the file content).  A value v crosses
+// as its decimal digits left-padded with zeros to a width that often shrinks from one update to the
+// next; responses are parsed from the returned bytes AT RETURN TIME and the history goes through the
+// same oracle c13.holds.linearizable.  In addition every client KEEPS the slices it was handed
+// ([]byte of ParameterData, Binary.Data of the artifact — no copy) with a digest taken at return time,
+// re-digests them after each of its own later operations and once more after the history has ended and
+// one more (shorter) update was applied to every File parameter:
+//
+//	c13.holds.results_immutable K <dRet dLater>*K    oracle line: per held result the return-time digest and
+//	                                                 the last digest that differed from it (or the same again)
 package main
 
 import (
 	"fmt"
+	"hash/fnv"
 	"io"
 	"os"
 	"runtime"
@@ -32,6 +45,7 @@ import (
 	"time"
 
 	"github.com/EliCDavis/polyform/generator/artifact"
+	"github.com/EliCDavis/polyform/generator/artifact/basics"
 	"github.com/EliCDavis/polyform/generator/graph"
 	"github.com/EliCDavis/polyform/generator/parameter"
 	"github.com/EliCDavis/polyform/nodes"
@@ -365,6 +379,7 @@ type c13Call struct {
 	kind  byte // 'u' 'd' 'a'
 	p, v  int
 	yield bool // runtime.Gosched() before issuing it
+	w     int  // FILE family only: width of the zero-padded payload of an update
 }
 
 func (k c13Call) String() string {
@@ -647,4 +662,301 @@ func runC13(c *Ctx) {
 		}
 		c13History(c, c13Clients[c.Rng.Intn(len(c13Clients))], fixedProcs)
 	}
+	// the FILE family comes after everything else, so the lines above are generated exactly as before
+	for i := 0; i < c.N/5; i++ {
+		c13FileHistory(c, c13FileClients[c.Rng.Intn(len(c13FileClients))], fixedProcs)
+	}
+}
+
+// ---- (c) FILE family: parameter.File + basics.BinaryNode, results held after the call returned ----
+
+var c13FileClients = []int{2, 3, 4, 8}
+
+// c13Payload: the decimal digits of v left-padded with zeros to width w, in a FRESH slice that the
+// harness never touches again (the unchanged File.ApplyMessage stores the caller's slice).
+func c13Payload(v, w int) []byte {
+	return []byte(fmt.Sprintf("%0*d", w, v))
+}
+
+// c13ParseDigits: the number the bytes encode (leading zeros ignored); 999999999 if they are not all digits.
+func c13ParseDigits(b []byte) int {
+	if len(b) == 0 {
+		return 999999999
+	}
+	n := 0
+	for _, ch := range b {
+		if ch < '0' || ch > '9' {
+			return 999999999
+		}
+		if n < 100000000 {
+			n = n*10 + int(ch-'0')
+		} else {
+			return 999999999
+		}
+	}
+	return n
+}
+
+// digest of a held result: FNV-64a of the bytes followed by the length, one lower-case hex token
+func c13Digest(b []byte) string {
+	h := fnv.New64a()
+	h.Write(b)
+	return fmt.Sprintf("%016x%06x", h.Sum64(), len(b))
+}
+
+type c13Held struct {
+	data  []byte // the slice the call returned — NOT a copy
+	p     int    // the File parameter it shows
+	tResp int64
+	dRet  string // digest when the call returned
+	dLast string // last digest that differed from dRet (dRet if none did)
+}
+
+func (h *c13Held) recheck() {
+	if d := c13Digest(h.data); d != h.dRet {
+		h.dLast = d
+	}
+}
+
+func c13FileHistory(c *Ctx, clients int, fixedProcs bool) {
+	// graph: File parameters first, then one or two Binary producers per parameter
+	inst := graph.New(&refutil.TypeFactory{})
+	nf := 1 + c.Rng.Intn(2)
+	next := 1000
+	var desc []string
+	files := make([]*parameter.File, nf)
+	var all []nodes.Node
+	for i := 0; i < nf; i++ {
+		v := i*10 + c.Rng.Intn(10)
+		files[i] = &parameter.File{Name: "f" + itoa(i), DefaultValue: c13Payload(v, 16)}
+		all = append(all, files[i])
+		desc = append(desc, "Q "+itoa(v))
+	}
+	var names []string // producer name per node ("" for parameters)
+	for range files {
+		names = append(names, "")
+	}
+	prodOf := []int{} // node ids of producers
+	paramOf := map[int]int{}
+	for i := 0; i < nf; i++ {
+		for k := 0; k < 1+c.Rng.Intn(2); k++ {
+			out := basics.NewBinaryNode(files[i].Out())
+			id := len(all)
+			all = append(all, out.Node())
+			names = append(names, "bin"+itoa(id)+".bin")
+			inst.AddProducer(names[id], out)
+			desc = append(desc, "B 0 1 "+itoa(i)+" 0")
+			prodOf = append(prodOf, id)
+			paramOf[id] = i
+		}
+	}
+	gstr := itoa(len(all)) + " " + strings.Join(desc, " ")
+	ids := make([]string, len(all))
+	for i, n := range all {
+		ids[i] = inst.NodeId(n)
+		if ids[i] == "" {
+			panic("c13: file-family node without id")
+		}
+	}
+
+	// plan; payload widths: the first update of a parameter is wide, later ones often narrower or equal
+	plan := make([][]c13Call, clients)
+	payload := make([][][]byte, clients)
+	seenUpd := make([]bool, nf)
+	total := 0
+	for t := range plan {
+		n := 2 + c.Rng.Intn(7)
+		for j := 0; j < n; j++ {
+			k := c13Call{yield: c.Rng.Intn(4) == 0}
+			switch r := c.Rng.Intn(100); {
+			case r < 40:
+				k.kind, k.p, k.v = 'u', c.Rng.Intn(nf), next
+				next++
+				switch {
+				case !seenUpd[k.p]:
+					k.w = 16
+				case c.Rng.Intn(12) == 0:
+					k.w = 20 + 4*c.Rng.Intn(2) // sometimes growing again
+				default:
+					k.w = []int{16, 16, 12, 12, 8, 8}[c.Rng.Intn(6)]
+				}
+				seenUpd[k.p] = true
+			case r < 70:
+				k.kind, k.p = 'd', c.Rng.Intn(nf)
+			default:
+				k.kind, k.p = 'a', prodOf[c.Rng.Intn(len(prodOf))]
+			}
+			plan[t] = append(plan[t], k)
+			if k.kind == 'u' {
+				payload[t] = append(payload[t], c13Payload(k.v, k.w))
+			} else {
+				payload[t] = append(payload[t], nil)
+			}
+		}
+		total += n
+	}
+	procs := 0
+	if !fixedProcs {
+		procs = c13Procs[c.Rng.Intn(len(c13Procs))]
+		old := runtime.GOMAXPROCS(procs)
+		defer runtime.GOMAXPROCS(old)
+	} else {
+		procs = runtime.GOMAXPROCS(0)
+	}
+
+	var ctr atomic.Int64
+	recs := make([][]c13Rec, clients)
+	held := make([][]*c13Held, clients)
+	start := make(chan struct{})
+	var wg sync.WaitGroup
+	for t := 0; t < clients; t++ {
+		wg.Add(1)
+		go func(t int) {
+			defer wg.Done()
+			<-start
+			for j, k := range plan[t] {
+				if k.yield {
+					runtime.Gosched()
+				}
+				var data []byte
+				resp := "err"
+				tInv := ctr.Add(1)
+				func() {
+					defer func() {
+						if e := recover(); e != nil {
+							resp = "err"
+						}
+					}()
+					switch k.kind {
+					case 'u':
+						ok, err := inst.UpdateParameter(ids[k.p], payload[t][j])
+						if ok && err == nil {
+							resp = "ok"
+						}
+					case 'd':
+						data = inst.ParameterData(ids[k.p])
+						resp = ""
+					default:
+						art := inst.Artifact(names[k.p])
+						if b, isBin := art.(basics.Binary); isBin {
+							data = b.Data
+							resp = ""
+						}
+					}
+				}()
+				tResp := ctr.Add(1)
+				// what the client holds from earlier calls, looked at again now that a later call of its own completed
+				for _, h := range held[t] {
+					h.recheck()
+				}
+				if resp == "" {
+					// return-time value and digest of the bytes just handed out; the slice itself is kept
+					resp = "v " + itoa(c13ParseDigits(data))
+					p := k.p
+					if k.kind == 'a' {
+						p = paramOf[k.p]
+					}
+					d := c13Digest(data)
+					held[t] = append(held[t], &c13Held{data: data, p: p, tResp: tResp, dRet: d, dLast: d})
+				}
+				recs[t] = append(recs[t], c13Rec{tInv: tInv, tResp: tResp, tid: t, call: k, resp: resp})
+			}
+		}(t)
+	}
+	done := make(chan struct{})
+	go func() { wg.Wait(); close(done) }()
+	close(start)
+	select {
+	case <-done:
+	case <-time.After(120 * time.Second):
+		fmt.Fprintln(os.Stderr, "c13: file-family clients did not finish within 120 s (deadlock?) on graph", gstr)
+		os.Exit(3)
+	}
+	// the history has ended: one more complete, shorter update of every File parameter, then look again
+	for i := range files {
+		if ok, err := inst.UpdateParameter(ids[i], c13Payload(next, 6)); !ok || err != nil {
+			panic("c13: final file update rejected")
+		}
+		next++
+	}
+	var allHeld []*c13Held
+	for _, hs := range held {
+		for _, h := range hs {
+			h.recheck()
+			allHeld = append(allHeld, h)
+		}
+	}
+	sort.Slice(allHeld, func(i, j int) bool { return allHeld[i].tResp < allHeld[j].tResp })
+
+	// events, exactly as in c13History
+	var ops []c13Rec
+	for _, r := range recs {
+		ops = append(ops, r...)
+	}
+	sort.Slice(ops, func(i, j int) bool { return ops[i].tInv < ops[j].tInv })
+	type ev struct {
+		t   int64
+		txt string
+	}
+	var evs []ev
+	for id, o := range ops {
+		evs = append(evs, ev{o.tInv, "i " + itoa(id) + " " + itoa(o.tid) + " " + o.call.String()})
+		evs = append(evs, ev{o.tResp, "r " + itoa(id) + " " + o.resp})
+	}
+	sort.Slice(evs, func(i, j int) bool { return evs[i].t < evs[j].t })
+	parts := make([]string, len(evs))
+	for i, e := range evs {
+		parts[i] = e.txt
+	}
+
+	// distribution
+	exposed := 0 // held results followed, inside the history, by a completed update of the same parameter with a payload not longer than the held bytes
+	for _, h := range allHeld {
+		for _, o := range ops {
+			if o.call.kind == 'u' && o.call.p == h.p && o.tInv > h.tResp && o.call.w <= len(h.data) {
+				exposed++
+				break
+			}
+		}
+	}
+	maxHeld := 0
+	for _, hs := range held {
+		if len(hs) > maxHeld {
+			maxHeld = len(hs)
+		}
+	}
+	c.Note("file.histories")
+	c.Note("file.clients=" + fmt.Sprintf("%02d", clients))
+	c.Note("file.gomaxprocs=" + fmt.Sprintf("%02d", procs))
+	c.Note("file.parameters=" + itoa(nf))
+	c.notes["file.ops"] += total
+	c.notes["file.held-results"] += len(allHeld)
+	c.notes["file.held-results-followed-in-history-by-update-of-same-parameter-not-longer"] += exposed
+	if len(allHeld) > c.notes["file.max-held-results-in-one-history"] {
+		c.notes["file.max-held-results-in-one-history"] = len(allHeld)
+	}
+	if maxHeld > c.notes["file.max-held-results-by-one-client"] {
+		c.notes["file.max-held-results-by-one-client"] = maxHeld
+	}
+	changed := 0
+	for _, h := range allHeld {
+		if h.dLast != h.dRet {
+			changed++
+		}
+	}
+	if changed > 0 {
+		c.Note("file.histories-with-a-held-result-that-changed")
+		c.notes["file.held-results-that-changed"] += changed
+	}
+
+	c.Emit("c13.holds.linearizable", gstr+" "+itoa(len(parts))+" "+strings.Join(parts, " "), "true")
+	pairs := make([]string, 0, 2*len(allHeld))
+	for _, h := range allHeld {
+		pairs = append(pairs, h.dRet, h.dLast)
+	}
+	line := itoa(len(allHeld))
+	if len(pairs) > 0 {
+		line += " " + strings.Join(pairs, " ")
+	}
+	c.Emit("c13.holds.results_immutable", line, "true")
 }
